@@ -74,7 +74,7 @@ CLAIMED = {
         "asserted, one setter of one family per arm, rejecting else, distinct families); documented values accepted; sibling "
         "setters write the same keys and the literals the documentation states; the caller's dictionary is never written; "
         "the head-count override key round trip for every species column of the table, the other overrides write exactly "
-        "their key with a range check and are not written again by anything that runs after them (the shut-off setters come first), multipliers scale exactly the yearly ratios; every constant read downstream is "
+        "their key with a range check and are not written again by anything that runs after them (the shut-off setters come first), multipliers scale exactly the yearly ratios, which nothing rewrites afterwards; every constant read downstream is "
         "written by every value of its family or read under its flag; the shipped presets are accepted.",
         "CPython string semantics (strip/slicing) as evaluated by the checker; the YAML subset parser. " + TRUST,
         "typestate, dispatch-table, key writer/reader and effect analyses over the ast + README/YAML/CSV-header artefact checks",
